@@ -4,6 +4,8 @@ import (
 	"fmt"
 	"go/ast"
 	"go/types"
+	"sort"
+	"strings"
 )
 
 func init() {
@@ -44,6 +46,7 @@ func runC08(p *Prog, r *Report) {
 	c08R4(p, r)
 	c08R6(p, r)
 	c08R7(p, r)
+	c08R8(p, r)
 	// R5: the store file follows every acknowledged change (shared with C20-R2)
 	credFlushRule(p, r, "C08-R5")
 }
@@ -408,7 +411,9 @@ func c08R7(p *Prog, r *Report) {
 			r.Fail(rule, "api/ssm:"+key, cs.Pos(), "undecided: cannot resolve the handler function")
 			continue
 		}
-		ops := hc.CallsTo(func(fn *types.Func) bool { return namedTypeName(recvTypeOf(fn)) == "ManagedServer" && namedTypePkg(recvTypeOf(fn)) == mp("cred") })
+		ops := hc.CallsTo(func(fn *types.Func) bool {
+			return namedTypeName(recvTypeOf(fn)) == "ManagedServer" && namedTypePkg(recvTypeOf(fn)) == mp("cred")
+		})
 		okOp := len(ops) == 1 && ops[0].Fn.Name() == wantOp
 		got := ""
 		for _, o := range ops {
@@ -443,4 +448,133 @@ func constStr(v interface{ ExactString() string }) string {
 		return out
 	}
 	return s
+}
+
+// c08R8: the cache and the live maps are changed by the same operations on the same keys. A key
+// is identified by its value, not its spelling: `uc.uPSKHash` before and after `uc.uPSKHash = …`
+// are different keys. An expression's identity is its access path plus the set of writes to that
+// path (in the function) that can reach the point of evaluation; a local with a single
+// definition stands for its defining expression at its definition; a callback handed to the live
+// stores evaluates its captured variables when it is called.
+func c08R8(p *Prog, r *Report) {
+	const rule = "C08-R8"
+	r.Rule(rule, "mirror agreement: in every ManagedServer method that hands a callback to the live stores, the callback's operations on its map argument (delete k / store k→v) are exactly the method's operations on cachedUserLookupMap, with keys equal as values (same access path reached by the same writes) and the same stored value")
+	pkg := p.Pkg("cred")
+	ulmField := "cachedUserLookupMap"
+	n := 0
+	p.AllFuncs(pkg, func(fc *FuncCtx) {
+		recv := fc.RecvObj()
+		if recv == nil || namedTypeName(recv.Type()) != "ManagedServer" {
+			return
+		}
+		info := fc.Info()
+		// callbacks passed (directly or through a local) to a live-store updater
+		for _, cs := range fc.AllCalls() {
+			if cs.Fn == nil || len(cs.Call.Args) != 1 {
+				continue
+			}
+			lit, ok := ast.Unparen(fc.Resolve(cs.Call.Args[0])).(*ast.FuncLit)
+			if !ok || lit.Type.Params == nil || len(lit.Type.Params.List) != 1 {
+				continue
+			}
+			if _, isMap := info.TypeOf(lit.Type.Params.List[0].Type).Underlying().(*types.Map); !isMap {
+				continue
+			}
+			lc := p.LitCtx(fc, lit)
+			mapParam := lc.ParamObj(0)
+			type op struct{ kind, key, val string }
+			var live, cache []op
+			collect := func(c *FuncCtx, isTarget func(e ast.Expr) bool, at func(v int) int, out *[]op) {
+				for _, v := range c.G.V {
+					if v.Node == nil {
+						continue
+					}
+					if as, ok := v.Node.(*ast.AssignStmt); ok && v.Kind == VStmt {
+						for i, l := range as.Lhs {
+							if ix, ok := ast.Unparen(l).(*ast.IndexExpr); ok && isTarget(ix.X) && i < len(as.Rhs) {
+								*out = append(*out, op{"store", c08ValueID(fc, c, ix.Index, at(v.ID)), c08ValueID(fc, c, as.Rhs[i], at(v.ID))})
+							}
+						}
+					}
+					for _, c2 := range c.AllCalls() {
+						if c2.V != v.ID {
+							continue
+						}
+						if id, ok := ast.Unparen(c2.Call.Fun).(*ast.Ident); ok && id.Name == "delete" && len(c2.Call.Args) == 2 && isTarget(c2.Call.Args[0]) {
+							*out = append(*out, op{"delete", c08ValueID(fc, c, c2.Call.Args[1], at(v.ID)), ""})
+						}
+					}
+				}
+			}
+			collect(lc, func(e ast.Expr) bool { return objOf(info, e) == mapParam && mapParam != nil }, func(int) int { return cs.V }, &live)
+			collect(fc, func(e ast.Expr) bool {
+				root, path, ok := pathOf(info, e)
+				return ok && root == recv && path == "."+ulmField
+			}, func(v int) int { return v }, &cache)
+			key := func(ops []op) string {
+				var ss []string
+				for _, o := range ops {
+					ss = append(ss, o.kind+" "+o.key+" "+o.val)
+				}
+				sort.Strings(ss)
+				return strings.Join(ss, "; ")
+			}
+			n++
+			r.Check(len(live) > 0 && key(live) == key(cache), rule, fc.Name+":live-mirrors-cache", cs.Pos(), "live maps and cache receive the same operations: "+key(cache),
+				"the callback applied to the live stores does not perform the operations the method performs on its cache — live: ["+key(live)+"], cache: ["+key(cache)+"] (an expression written the same but evaluated after the field was overwritten is a different key): the accepted key set and the listed credentials drift apart")
+		}
+	})
+	r.Count("mirrored_updates", n)
+	r.Floor(rule, 3)
+}
+
+// c08ValueID identifies the value of e evaluated at vertex `at` of the method fc (c is the
+// context e occurs in: fc itself or a callback literal of it).
+func c08ValueID(fc, c *FuncCtx, e ast.Expr, at int) string {
+	info := fc.Info()
+	e = ast.Unparen(e)
+	// a local with one definition stands for its defining expression at its definition
+	if id, ok := e.(*ast.Ident); ok {
+		if obj := objOf(info, id); obj != nil {
+			for _, ctx := range []*FuncCtx{c, fc} {
+				if rhs, idx, dv, ok := ctx.SoleDefRHS(obj); ok && idx < 0 {
+					if ctx == fc {
+						return c08ValueID(fc, fc, rhs, dv)
+					}
+					return c08ValueID(fc, c, rhs, at)
+				}
+			}
+			return fmt.Sprintf("%s#%d", id.Name, obj.Pos())
+		}
+	}
+	root, path, ok := pathOf(info, e)
+	if !ok || path == "" {
+		return exprStr(e)
+	}
+	// writes to this path in the method that reach the evaluation point
+	var writes []int
+	for _, v := range fc.G.V {
+		if as, ok := v.Node.(*ast.AssignStmt); ok && v.Kind == VStmt {
+			for _, l := range as.Lhs {
+				if r2, p2, ok2 := pathOf(info, l); ok2 && r2 == root && p2 == path {
+					writes = append(writes, v.ID)
+				}
+			}
+		}
+	}
+	isW := map[int]bool{}
+	for _, w := range writes {
+		isW[w] = true
+	}
+	var reaching []string
+	if fc.G.Reach([]int{fc.G.Entry}, func(v *Vertex) bool { return isW[v.ID] }, nil)[at] || at == fc.G.Entry {
+		reaching = append(reaching, "entry")
+	}
+	for _, w := range writes {
+		if w != at && fc.G.ReachAfter(w, func(v *Vertex) bool { return isW[v.ID] }, nil)[at] {
+			reaching = append(reaching, fmt.Sprint("w", w))
+		}
+	}
+	sort.Strings(reaching)
+	return fmt.Sprintf("%s%s@{%s}", root.Name(), path, strings.Join(reaching, ","))
 }
